@@ -19,10 +19,7 @@ RULES = {
           "boolean combination in its `if` - equals the documented grammar "
           "[h_align][width][.(v_align[height]|height)][#[threshold|bgcolor]][+style] (docs/source/guide/formatting.rst) for "
           "strings of every length; _ALPHA_BG_FORMAT is exactly '#' | '#'hex6",
-    "R2": "_FORMAT_SPEC has as many groups as the unpacking in _check_format_spec has targets, each named target's group has the "
-          "field's language, absent fields get the documented defaults (width 0, height -2, no '#' -> _ALPHA_THRESHOLD, bare '#' "
-          "-> None) which equal the defaults of draw()/_check_formatting; parsed numbers are never tested for truthiness "
-          "(a zero threshold is a value, not 'absent')",
+    "R2": "every use of a field is traced back to its group of _FORMAT_SPEC (groups()[i], group(k), m[k] alike): group k has the field's language; _check_formatting receives (group 2, int(group 3) or 0, group 5, int(group 6) or -2); the alpha value is, by case specialisation, _ALPHA_THRESHOLD without '#', the empty group for a bare '#', '#'+hex for a colour, float() for a threshold; the style part goes to _check_style_format_spec; these defaults equal those of draw()/_check_formatting; parsed numbers are never tested for truthiness",
     "R3": "per style: number of _FORMAT_SPEC field patterns = arity of the field unpacking; keys written into args[...] are keys of "
           "_style_args; keys of _style_args = keyword-only parameters of _render_image minus the internal ones, with equal defaults; "
           "field patterns are pairwise non-overlapping; _get_style_format_spec anchors every field after the first "
